@@ -31,6 +31,16 @@ CHECKS = {
         technique="property-based testing + exhaustive small scope against the disjunctive reference answer",
         text="Frameworks biased to several components with lists of 1-3 arguments (free, attack endpoints, one per component, repetitions); all static solver types x encoders x credulous/skeptical x both entry points on fresh solvers; status must equal the disjunction over the brute-force extensions, certificates valid for the disjunction. Exhaustive: all graphs on <=3 arguments x all lists of length <=2 (quick) / <=3 (thorough).",
         note="trusted: oracle.rs, CaDiCaL; <=12 arguments"),
+    "C08": dict(
+        cat="exploration", ref="4 C08",
+        technique="model-based stateful property testing (generated update/query histories vs a set model + brute-force semantics)",
+        text="Generated histories (5-80 / up to 200 steps, <=7 live arguments out of 10 labels, re-added labels, query bursts) over 11 dynamic solver configurations incl. 7 reservation factors; after every query and in a final sweep, status and certificate must be those of the model's current framework by brute force; Err or panic on a valid step is a failure. The whole history shrinks as one value.",
+        note="trusted: oracle.rs, the set model; <=7 live arguments; single-argument supported query kinds only"),
+    "C09": dict(
+        cat="exploration", ref="4 C09",
+        technique="model-based stateful property testing with injected redundant/invalid updates",
+        text="C08 histories with ~15% redundant or invalid updates at any position; redundant must be Ok and without effect, invalid must be rejected by the update call itself, all later answers must match the model that ignored them.",
+        note="trusted: oracle.rs, the set model; fault kinds are those the property lists"),
 }
 
 NOT_YET = "check not built yet in this session (work in progress; see DESIGN.md section 4 for the planned check)"
